@@ -314,6 +314,8 @@ class FFTMTF:
                 of rays, wavelength, and F-number.
         """
         Q = self.grid_size / self.num_rays
-        dx = Q / (self.wavelength * self.FNO)
+        # frequency step of the transform of a PSF sampled at
+        # wavelength * FNO / Q microns over grid_size pixels, in cycles/mm
+        dx = Q / (self.wavelength * 1e-3 * self.FNO * self.grid_size)
 
         return dx
